@@ -44,7 +44,13 @@ func scenC05(r *Run, job *Job) {
 		}
 	case "sweep":
 		offset = c05Offsets[t.Draw(len(c05Offsets))]
-		sweepWho = t.Draw(4) // 0: the response, 1: the runtime's re-poll, 2: the last extension's re-poll, 3: the runtime's first poll (end of init)
+		sweepWho = t.Draw(5) // 0: the response, 1: the runtime's re-poll, 2: the last extension's re-poll, 3: the runtime's first poll (end of init), 4: the runtime's exit (the failure reset is still running when time runs out)
+		if sweepWho == 4 {
+			offset = []time.Duration{-1500 * time.Millisecond, -500 * time.Millisecond, -100 * time.Millisecond, -time.Millisecond}[t.Draw(4)]
+			if len(ExtFiles(exts)) == 0 {
+				exts = append(exts, ExtCfg{Name: "e1", Subs: []string{"INVOKE", "SHUTDOWN"}})
+			}
+		}
 		if sweepWho == 3 && t.Chance(1, 2) {
 			// ... and the dispatch that follows is descheduled for a moment, across the expiry
 			r.AddHold([]string{"HandleInvoke", "setReplyStream", "FastInvoke", "rapidcore.(*Server).Invoke"}[t.Draw(4)], 1+t.Draw(3), 1+t.Draw(4))
@@ -71,6 +77,9 @@ func scenC05(r *Run, job *Job) {
 		maxKillLat = killLat
 	}
 	extOnShut := []string{"", "ignore", "exit1"}[t.Draw(3)]
+	if profile == "sweep" && sweepWho == 4 && t.Chance(2, 3) {
+		extOnShut = "ignore" // the failure reset takes its full allowance
+	}
 	firstExt := ""
 	for _, x := range exts {
 		if !x.Internal {
@@ -133,6 +142,8 @@ func scenC05(r *Run, job *Job) {
 					b.Script = []Op{{Kind: "next"}, {Kind: "response"}, {Kind: "until", D: T + offset}, {Kind: "next"}}
 				case 3:
 					b.Script = []Op{{Kind: "untilinv", D: T + offset}, {Kind: "next"}, {Kind: "response"}}
+				case 4:
+					b.Script, b.ThenHealthy = []Op{{Kind: "next"}, {Kind: "until", D: T + offset}, {Kind: "exit", N: 1}}, false
 				}
 			} else if sweepWho == 2 && p.ExtName == firstExt {
 				b.Script = []Op{{Kind: "register"}, {Kind: "extnext"}, {Kind: "untilinv", D: T + offset}, {Kind: "extnext"}}
@@ -185,6 +196,18 @@ func c05Judge(r *Run, w *World, e *Engine, T, offset time.Duration, profile stri
 		st, body := inv.Call.Status, inv.Call.Body
 		isTimeout := st == 200 && bytes.Equal(body, timeoutBody)
 		isResp := st == 200 && inv.AnswerKind == "response" && bytes.Equal(body, inv.Answered)
+		if i < nFaulty && profile == "sweep" && sweepWho == 4 {
+			// the runtime exits shortly before the expiry: the failure outcome or the timeout outcome, in bounded time
+			eb, okJSON := ParseErr(body)
+			isFail := st >= 500 && okJSON && eb.ErrorType == "Runtime.ExitError"
+			r.Check(isTimeout || isFail, "C05.outcome", "invocation %d (runtime exits %s before the expiry) must end in the failure or the timeout outcome, got %d %s", inv.N, -offset, st, summarize(body))
+			el := inv.Call.EndAt - inv.ArrivalAt
+			bound := T + 2*time.Second + 2*time.Second + 100*time.Millisecond + 4*killLat + inj + 50*time.Millisecond
+			r.Check(el <= bound, "C05.late-answer", "outcome after %s, bound %s", el, bound)
+			r.NonTriv = true
+			r.Probe("exit-before-expiry")
+			continue
+		}
 		if i < nFaulty {
 			r.Check(isTimeout || isResp, "C05.outcome", "invocation %d must end in its response or the timeout text, got %d %s (runtime answered: %q)", inv.N, st, summarize(body), inv.AnswerKind)
 			if isTimeout {
